@@ -144,7 +144,8 @@ class ChainFile:
             if os.path.exists(file):  os.remove(file)
             return
 
-        fd = open(file, "w")
+        tmpfile = "%s.tmp%d" % (file, os.getpid())   # write a copy beside the record, then rename it into place
+        fd = open(tmpfile, "w")
 
         # Should really be "FILE = chain", but eups checks for version.  I've changed it to allow
         # chain, but let's not break backward compatibility with old eups versions
@@ -180,7 +181,12 @@ CHAIN = %s
 
             print("#End:", file=fd)
 
+        fd.flush()
+        os.fsync(fd.fileno())
         fd.close()
+        if os.path.exists(file):
+            os.chmod(tmpfile, os.stat(file).st_mode & 0o7777)   # keep the record's permissions
+        os.rename(tmpfile, file)
 
     REGEX_KEYVAL = re.compile(r"^(\w+)\s*=\s*(.*)", flags = re.IGNORECASE)
     REGEX_GROUPEND = re.compile(r"^(End|Group)\s*:")
